@@ -4,6 +4,7 @@
 #include "ref/ref_vol.h"
 #include "Archive/VolFile.h"
 #include <memory>
+#include <unistd.h>
 #include <type_traits>
 
 using namespace verif;
@@ -150,6 +151,13 @@ void vol_path(const std::vector<uint8_t>& in, const reflzh::DecodeResult& ref) {
 				if (packed[idx]->empty() && g3.empty()) continue;
 				V_CHECK(g3 == refs[idx]->out, "LZH member " << idx << " (" << packed[idx]->size() << " packed bytes) extracted after other members through the same archive object gives " << g3.size() << " bytes, its own decode has " << refs[idx]->out.size());
 			}
+			// the convenience entry point writes the same files: ExtractAllFiles into a directory (members in index order: larger packed size first)
+			{ std::string dir = scratch_path("c04_all"); for (int i = 0; i < 3; ++i) remove((dir + "/" + names[i]).c_str());
+			  Out oa = guarded([&] { v3.ExtractAllFiles(dir); }, &what);
+			  V_CHECK(oa == Out::Ok, "ExtractAllFiles of a volume of three LZH members threw: " << what);
+			  for (int i = 0; i < 3; ++i) { std::vector<uint8_t> ga; read_file(dir + "/" + names[i], ga); remove((dir + "/" + names[i]).c_str()); if (packed[i]->empty() && ga.empty()) continue;
+			    V_CHECK(ga == refs[i]->out, "ExtractAllFiles wrote " << ga.size() << " bytes for LZH member " << i << " (" << packed[i]->size() << " packed bytes), its own decode has " << refs[i]->out.size() << " - or other bytes"); }
+			  rmdir(dir.c_str()); }
 		}
 	}
 }
